@@ -453,6 +453,12 @@ func (c *PullClient) newRequest(method string, url *url.URL) *Request {
 }
 
 func (c *PullClient) receiveResponse() (resp *Response, err error) {
+	// 握手阶段也必须有读超时：对端接受连接后不回应时，不能让请求方一直挂起
+	if timeout := config.NetTimeout(); timeout > 0 {
+		if err = c.conn.SetReadDeadline(time.Now().Add(timeout)); err != nil {
+			return nil, err
+		}
+	}
 	resp, err = ReadResponse(c.conn.Reader())
 	if err != nil {
 		return nil, err
